@@ -253,6 +253,10 @@ def _join_split(ctx):
     from .c18 import r4_float_and_list_formatting
     r4_float_and_list_formatting(ctx)
 
+def _delta_arrays(ctx):
+    from ..idioms import check_delta_arrays
+    check_delta_arrays(ctx, ["bionumpy.encoded_array", "bionumpy.io.strops", "bionumpy.string_array", "bionumpy.util.ragged_slice"], "C07-R9")
+
 RULES = [
     ("C07-R1", r1_encoding_preserved),
     ("C07-R2", r2_operands_encoded),
@@ -263,4 +267,5 @@ RULES = [
     ("C07-T1", _through_time),
     ("C07-R7", _retarget_and_shapes),
     ("C07-R8", _join_split),
+    ("C07-R9", _delta_arrays),
 ]
